@@ -1,5 +1,6 @@
 import Gv.Oracle.Common
 import Gv.Model.Mask
+import Gv.Spec.Mask
 /-! Oracle handlers for C15 (masking). -/
 namespace Gv.Oracle.MaskOps
 open Gv Gv.Oracle Gv.Model
@@ -25,6 +26,36 @@ def render (o : Option Rows) (L : Int) : String :=
   match o with
   | some r => "ok " ++ toString L ++ " " ++ encRows r
   | none => "err"
+
+/-- `MaskOccurences`: model result and verdict of the independently stated predicate on `impl` -/
+def occAnswer (alpha : Nat) (rows : Rows) (ref : String) (mo : Int) (mr : MaskRep) (viaUnique : Bool) (impl : String) : Ans :=
+    let L := lenOf rows
+    let m := render (if viaUnique then maskUnique rows L alpha ref mr else maskOccurences rows L alpha ref mo mr) L
+    let refRow := (rows.find? fun r => r.1 == ref).map Prod.snd
+    let fixedRep : Option Byte := match mr with
+      | .ambig => if alpha == 0 then some 88 else if alpha == 1 then some 78 else none
+      | .gap => some 45 | .maj => some 46 | .char c => some c | .bad => none
+    let exp :=
+      if fixedRep.isNone || (ref != "" && refRow.isNone) then "err"
+      else
+        let rr := refRow.getD []
+        let out := rows.map fun r => (r.1, r.2.zipIdx.map fun (c, i) =>
+          -- residues that count in column i: rows other than the reference, different from it (or facing a gap in it)
+          let counts (x : String × Seq) : Bool :=
+            ref == "" || (x.1 != ref && (x.2.getD i 0 != rr.getD i 0 || rr.getD i 0 == 45))
+          let counted := (rows.filter counts).map fun x => x.2.getD i 0
+          let rep := if mr == .maj then (if counted.isEmpty then 0 else naiveMajority counted) else fixedRep.getD 0
+          let n := counted.count c
+          if counts r && c != 45 && n > 0 && (n : Int) ≤ mo && (counted.isEmpty || c != rep) then rep else c)
+        "ok " ++ toString L ++ " " ++ encRows out
+    -- second, cell-by-cell statement: the definitions the theorems of `Gv.Props.C15` are about
+    let exp2 :=
+      if fixedRep.isNone || (ref != "" && refRow.isNone) then "err"
+      else
+        let rr := refRow.getD []
+        let out := rows.map fun r => (r.1, (List.range L.toNat).map fun i => Spec.maskOccCell rows ref rr mo mr (fixedRep.getD 0) i r)
+        "ok " ++ toString L ++ " " ++ encRows out
+    ⟨m, verdictOf (impl == exp && impl == exp2) (if impl.startsWith "panic" then "crash" else "maskocc-spec")⟩
 
 def handle : Handler := fun op args impl =>
   match op, args with
@@ -57,28 +88,13 @@ def handle : Handler := fun op args impl =>
     let alpha ← alpha.toNat?
     let rows ← decRows rows
     let mo ← parseInt? mo
-    let L := lenOf rows
     let ref := if ref == "_" then "" else ref
-    let mr := decRep rep
-    let m := render (maskOccurences rows L alpha ref mo mr) L
-    let refRow := (rows.find? fun r => r.1 == ref).map Prod.snd
-    let fixedRep : Option Byte := match mr with
-      | .ambig => if alpha == 0 then some 88 else if alpha == 1 then some 78 else none
-      | .gap => some 45 | .maj => some 46 | .char c => some c | .bad => none
-    let exp :=
-      if fixedRep.isNone || (ref != "" && refRow.isNone) then "err"
-      else
-        let rr := refRow.getD []
-        let out := rows.map fun r => (r.1, r.2.zipIdx.map fun (c, i) =>
-          -- residues that count in column i: rows other than the reference, different from it (or facing a gap in it)
-          let counts (x : String × Seq) : Bool :=
-            ref == "" || (x.1 != ref && (x.2.getD i 0 != rr.getD i 0 || rr.getD i 0 == 45))
-          let counted := (rows.filter counts).map fun x => x.2.getD i 0
-          let rep := if mr == .maj then (if counted.isEmpty then 0 else naiveMajority counted) else fixedRep.getD 0
-          let n := counted.count c
-          if counts r && c != 45 && n > 0 && (n : Int) ≤ mo && (counted.isEmpty || c != rep) then rep else c)
-        "ok " ++ toString L ++ " " ++ encRows out
-    some ⟨m, verdictOf (impl == exp) (if impl.startsWith "panic" then "crash" else "maskocc-spec")⟩
+    some (occAnswer alpha rows ref mo (decRep rep) false impl)
+  | "maskuniq", [alpha, rows, ref, rep] => do
+    let alpha ← alpha.toNat?
+    let rows ← decRows rows
+    let ref := if ref == "_" then "" else ref
+    some (occAnswer alpha rows ref 1 (decRep rep) true impl)
   | _, _ => none
 
 end Gv.Oracle.MaskOps
